@@ -4,6 +4,7 @@ package app
 
 import (
 	"context"
+	"io"
 	"sort"
 	"strconv"
 	"sync"
@@ -242,4 +243,17 @@ func (p *ProjectRunner) VerifRunningNamesNoLock() []string {
 func (p *ProjectRunner) VerifHasRunning(name string) bool {
 	_, ok := p.runningProcesses[name]
 	return ok
+}
+
+// VerifHandleOutput runs Process.handleOutput over a reader and returns the lines handed to the
+// handler, in order.
+func VerifHandleOutput(pipe io.ReadCloser, readyLine string) (lines []string, health string) {
+	conf := &types.ProcessConfig{Name: "p", ReplicaName: "p", ReadyLogLine: readyLine}
+	st := &types.ProcessState{Health: types.ProcessHealthUnknown}
+	p := &Process{procConf: conf, procState: st}
+	_, p.readyLogCancelFn = context.WithCancelCause(context.Background())
+	done := make(chan struct{})
+	p.handleOutput(pipe, "stdout", func(m string) { lines = append(lines, m) }, done)
+	<-done
+	return lines, st.Health
 }
